@@ -298,13 +298,13 @@ theorem zipWithInto_eq_fast_go (f : α → α → α) {h : Heap α} {dest source
   obtain ⟨st1, hst1, _⟩ := okd1.store
   have hstart : ((aliasArr dest [(vals.length : Int)]).base + sl.v.start).toNat = (dest.base + dest.v.start).toNat := by
     rw [hsview]
-    simp [sliceView, aliasArr, rootView, dot]
+    simp [sliceView, aliasArr, rootView, offsetsT, dot]
   rw [hstart]
   exact writeRun_self vals _ h1 (sliceVals_alias_eq hst1 hsl)
 
 /-- fast path, C-backed destination: pure loop on the unrolled copy, then the write-back through the flat view -/
 theorem zipWithInto_eq_fast_c (f : α → α → α) {h : Heap α} {dest source : Arr} (gd : Geo dest.v) (gs : Geo source.v)
-    (okd : ArrOK h dest) (oks : ArrOK h source) (hdims : source.v.dims = dest.v.dims)
+    (_okd : ArrOK h dest) (oks : ArrOK h source) (hdims : source.v.dims = dest.v.dims)
     {dv sv : List α} (hdv : getAll h dest (rowMajor dest.v.dims) = .ok dv)
     (hsv : getAll h source (rowMajor dest.v.dims) = .ok sv)
     (hcd : dest.v.contiguous = .ok true) (hcs : source.v.contiguous = .ok true) (hC : dest.isC = true) :
@@ -339,7 +339,9 @@ theorem zipWithInto_eq_fast_c (f : α → α → α) {h : Heap α} {dest source 
   rw [apply_c_spec (a := cAliasArr dest [((List.zipWith f dv sv).length : Int)]) (start := 0) hC (by omega)
     (by simp [cAliasArr, rootView]) (by simp)]
   have := sameSets_flat (α := α) gd hcd ((List.zipWith f dv sv).length : Int) (product dest.v.dims).toNat 0 (by omega)
-  rw [hlen]
+  have e : runIdxs [0] (Int.toNat 0) 0 1 0 (List.zipWith f dv sv).length =
+      runIdxs [0] (Int.toNat 0) 0 1 0 (product dest.v.dims).toNat := by rw [hlen]
+  rw [e]
   exact setAll_congr _ _ _ h this
 
 /-- **`zipWithInto` = the sequential element-by-element reference**, for every contiguity combination of source and
